@@ -72,8 +72,13 @@ QplibLoadClauses(q, raw) ==
   LET I == AbsI(raw) IN
   [ sense |-> raw.sense = (IF q.sense = "maximize" THEN "max" ELSE "min"),
     objective |-> I.obj = QObjective(q),
-    constraints |-> { [id |-> c, f |-> I.cons[c].f] : c \in DOMAIN I.cons } = QCons(q)
+    \* one "<= 0" constraint per finite side, compared as a BAG of functions (which id a side gets is not part of the
+    \* property: `constraint_ids` records the SDK's scheme  k-1 / m+k-1  as an extension clause)
+    constraints |-> LET want == QCons(q) IN
+                    /\ Cardinality(DOMAIN I.cons) = Cardinality(want) /\ UniqueConIds(raw)
+                    /\ \A w \in want : Cardinality({ c \in DOMAIN I.cons : I.cons[c].f = w.f }) = Cardinality({ x \in want : x.f = w.f })
                     /\ \A c \in DOMAIN I.cons : I.cons[c].eq = "le" /\ c \in I.active,
+    constraint_ids |-> { [id |-> c, f |-> I.cons[c].f] : c \in DOMAIN I.cons } = QCons(q),
     vars |-> VarIds(raw) = 0..(q.n - 1) /\ UniqueVarIds(raw)
              /\ \A i \in 1..q.n : (i - 1) \in VarIds(raw) => LoadedDomain(VarOf(raw, i - 1)) = QVarDomain(q, i),
     names |-> \A i \in 1..q.n : (i - 1) \in VarIds(raw) =>
